@@ -565,7 +565,8 @@ class FnEmitter:
             t0 = self.tail_expr_start(a_tok, b_tok)
             pos0 = toks[t0].start
             pos1 = toks[b_tok - 1].end
-            edits.append(Edit(pos0, pos0, 'let vx_res = ', rule='R7'))
+            ann = (': ' + self.ret_type) if getattr(self, 'ret_type', None) else ''
+            edits.append(Edit(pos0, pos0, 'let vx_res%s = ' % ann, rule='R7'))
             edits.append(Edit(pos1, pos1, ';\n' + '\n'.join(self.ghost(cl) for cl in ends) + '\nvx_res\n', rule='R7-end'))
             self.fire('R7', 'tail expression let-bound to vx_res')
 
@@ -773,11 +774,33 @@ class FnEmitter:
                         where_txt = ' ' + src[toks[w].start:toks[item.body_open - 1].end]
                         break
             head = src[sig_a:toks[pc].end]
+            # R8: Verus rejects `mut x: T` parameters of async fns ("not marked mutable"):
+            #     `async fn f(mut x: T)` -> `async fn f(x: T) { let mut x = x; ..`
+            self.mut_params = []
+            is_async = any(toks[z].text == 'async' for z in range(q, item.fn_kw))
+            if is_async:
+                z = item.params_open + 1
+                depth = 0
+                while z < pc:
+                    tz = toks[z]
+                    if tz.text in ('(', '[', '{'):
+                        z = match_close(toks, z)
+                    elif tz.kind == 'ident' and tz.text == 'mut' and toks[z + 1].kind == 'ident' and toks[z + 2].text == ':' \
+                            and toks[z - 1].text in ('(', ','):
+                        self.mut_params.append(toks[z + 1].text)
+                    z += 1
+                for name in self.mut_params:
+                    head = re.sub(r'\bmut\s+%s\s*:' % name, '%s:' % name, head, count=1)
+                    self.fire('R8', 'mut parameter %s rebound by `let mut`' % name)
             if ret is not None:
                 head += ' -> (%s: %s)' % (spec.result, ret)
             head += where_txt
             body_a, body_b = item.body_open, item.body_close
+            self.ret_type = ret
             edits = self.body_edits(body_a, body_b)
+            if self.mut_params:
+                pos = toks[body_a].end
+                edits.append(Edit(pos, pos, ' ' + ' '.join('let mut %s = %s;' % (n_, n_) for n_ in self.mut_params), rule='R8'))
             body = apply_edits(src, toks[body_a].start, toks[body_b].end, edits)
             orig = src[sig_a:toks[body_b].end]
             span = (sig_a, toks[body_b].end)
